@@ -15,6 +15,7 @@
                   "replayable tape, rapid-drawn inputs with shrinking; bounded exhaustive enumeration of release orders per input"),
     "budget": {"quick": 45, "thorough": 1200},
     "chunk": 200,
+    "inflight": True,
     "shrink_s": 30,
     "det_runs": 300,
     "rule": ("one run = one input (1-8 P-256 keys from a universe of 12 deterministic keys, repeats allowed, one key in eight the "
